@@ -553,6 +553,26 @@ func (f *Frame) evalCall(x ECall, c *evalCtx) Val {
 			}
 			nc.env = env
 		}
+		// variables that live in memory (captured variables of a closure) are re-read in the old state
+		{
+			var env map[string]Val
+			for k, v := range nc.env {
+				if v.LVSelf != nil && c.old != nil {
+					if env == nil {
+						env = map[string]Val{}
+						for k2, v2 := range nc.env {
+							env[k2] = v2
+						}
+					}
+					nv := v
+					nv.T = un.readLV(v.LVSelf, c.old)
+					env[k] = nv
+				}
+			}
+			if env != nil {
+				nc.env = env
+			}
+		}
 		return f.eval(x.Args[0], &nc)
 	case "len":
 		v := f.eval(x.Args[0], c)
@@ -680,7 +700,12 @@ func (f *Frame) evalCall(x ECall, c *evalCtx) Val {
 		srt := ArrSort(SInt, ArrSort(SInt, u.SortOf(sl.Elem())))
 		b := Term{"b!or", SInt}
 		cur, old := un.H(c.cur, hn, srt), un.H(c.old, hn, srt)
-		return boolVal(Forall([]Term{b}, Implies(Le(b, un.H(c.old, "$next", SInt)), Eq(Select(cur, b), Select(old, b))), Select(cur, b)))
+		var except []Term
+		for _, a := range x.Args[1:] {
+			// oldrows("[]T", s, ...): ... other than the backing rows of the slices s, ...
+			except = append(except, Neq(b, SBase(f.eval(a, c).T)))
+		}
+		return boolVal(Forall([]Term{b}, Implies(And(append(except, Le(b, un.H(c.old, "$next", SInt)))...), Eq(Select(cur, b), Select(old, b))), Select(cur, b)))
 	case "oldobjs":
 		// oldobjs("T"): every object of struct type T that existed on entry has all its (program) fields unchanged
 		lit, ok := x.Args[0].(EStr)
@@ -741,6 +766,21 @@ func (f *Frame) evalCall(x ECall, c *evalCtx) Val {
 			}
 		}
 		f.fail("seenset(): no map range in scope")
+	case "cellsframe":
+		// cellsframe(x): every variable cell of x's type other than the captured variable x itself is as it was on entry
+		id, ok := x.Args[0].(EIdent)
+		if !ok {
+			f.fail("cellsframe needs a captured variable")
+		}
+		v, ok := c.env[id.Name]
+		if !ok || v.LVSelf == nil || v.LVSelf.Kind != lvCell {
+			f.fail("cellsframe: %s is not a captured variable", id.Name)
+		}
+		lv := v.LVSelf
+		srt := ArrSort(SInt, un.u.SortOf(lv.Root))
+		cur, old := un.H(c.cur, lv.Heap, srt), un.H(c.old, lv.Heap, srt)
+		r := Term{"r!cf", SInt}
+		return boolVal(Forall([]Term{r}, Implies(And(Neq(r, lv.Ref), Le(r, un.H(c.old, "$next", SInt))), Eq(Select(cur, r), Select(old, r))), Select(cur, r)))
 	case "mapsframe":
 		// mapsframe(m): every map of m's type other than m is as it was on entry (frame of a loop that writes only m)
 		m := f.eval(x.Args[0], c)
@@ -1259,9 +1299,14 @@ func (f *Frame) splitGoal(e Expr, env map[string]Val, depth int) []Expr {
 			// substitute by let-binding the parameters
 			var out []Expr
 			for _, p := range f.splitGoal(d.Body, env, depth+1) {
+				// the arguments are evaluated in the caller's scope (a parameter may be named like a variable of the
+				// argument expressions): bind them to fresh names first, then the parameters to those
 				var w Expr = p
 				for i := len(d.Params) - 1; i >= 0; i-- {
-					w = ELet{Name: d.Params[i].Name, V: x.Args[i], B: w, Typ: d.Params[i].Type}
+					w = ELet{Name: d.Params[i].Name, V: EIdent{fmt.Sprintf("$arg%d_%d", depth, i)}, B: w, Typ: d.Params[i].Type}
+				}
+				for i := len(d.Params) - 1; i >= 0; i-- {
+					w = ELet{Name: fmt.Sprintf("$arg%d_%d", depth, i), V: x.Args[i], B: w, Typ: d.Params[i].Type}
 				}
 				out = append(out, w)
 			}
